@@ -8,6 +8,7 @@ CONSTANTS
   Outs = {}
   Fins = {}
   CancelOn = FALSE
+  DbStates = {}
 INVARIANTS TypeOK FinishedOnce CommitIffAllOk NoLaterStep NoBeginForEmpty RetRight GoneOnlyByExit
 CONSTRAINT Mark
 POSTCONDITION Accepted
